@@ -1,5 +1,6 @@
 import DirectVerif.Gen.C07
 import DirectVerif.Model.MaskBudget
+import DirectVerif.Props.C07
 import Mathlib.Tactic.Ring
 import Mathlib.Data.Rat.Floor
 /-!
@@ -47,5 +48,13 @@ theorem gaussian2d_request_eq (rows cols R : ℚ) (L : Int) :
 theorem gaussian_loops_eq : gaussianLoops = expectedGaussianLoops := by decide
 
 theorem poisson_skeleton_eq : poissonSkeleton = expectedPoissonSkeleton := by decide
+
+/-- nothing between the last tolerance evaluation and `return mask` modifies `mask`, and `mask` itself is returned -/
+theorem poisson_post_ok : postOk poissonPost = true := by decide
+
+/-- hence every mask `poisson` returns realises the acceleration within the tolerance — for the code as it is -/
+theorem code_bisection_post_returned (R tol : ℚ) (ps : List Probe) (effect : ℚ → ℚ) (a : ℚ) (n : Nat)
+    (hr : poisson R tol ps (postOfTable poissonPost effect) = .returned a n) : |a - R| < tol :=
+  DirectVerif.C07.bisection_post_returned_table R tol ps poissonPost poisson_post_ok effect a n hr
 
 end DirectVerif.Bridge.C07
